@@ -21,7 +21,7 @@ structure Hdr where
 
 inductive HdrRes
   | short                -- message.ErrShortRead
-  | invalid              -- declared length does not fit 32 bits (message.ErrInvalidValueLength)
+  | invalid              -- reserved token length, or declared length does not fit 32 bits: an error other than short read
   | ok (h : Hdr)
   deriving Repr, DecidableEq
 
@@ -55,6 +55,9 @@ def decodeHeader (bs : Bytes) : HdrRes :=
   match bs with
   | [] => .short
   | first :: rest =>
+    -- token lengths above MaxTokenSize are refused as soon as the first byte is seen (message.ErrInvalidTokenLen)
+    if headerChecksTkl && first.toNat % 16 > maxTokenSize then .invalid
+    else
     match lenField (first.toNat / 16) rest with
     | none => .short
     | some (hdrOff, opLen) => mkHdr bs (first.toNat % 16) hdrOff opLen
@@ -155,10 +158,12 @@ theorem decodeHeader_msgLen_pos {bs : Bytes} {h : Hdr} (e : decodeHeader bs = .o
   · cases e
   · split at e
     · cases e
-    · rename_i hdrOff opLen hl
-      have := lenField_pos hl
-      have := mkHdr_msgLen e
-      omega
+    · split at e
+      · cases e
+      · rename_i hdrOff opLen hl
+        have := lenField_pos hl
+        have := mkHdr_msgLen e
+        omega
 
 structure St where
   buf : Bytes
